@@ -171,6 +171,29 @@ LinksOK(stats) == \A i \in DOMAIN stats :
                     (stats[i].t = "file" /\ stats[i].hl # <<>>) =>
                       \E j \in 1..(i - 1) : stats[j].p = stats[i].hl /\ stats[j].t = "file" /\ stats[j].hl = <<>>
 
+\* ---- C03: hostile sender ---------------------------------------------------
+\* index of the first STAT that a receiver must reject: not a clean relative path strictly
+\* inside the root, not strictly ascending, parent not a directory sent earlier, or a hard
+\* link naming a path that was not sent earlier as a plain regular file; 0 if none
+FirstBadLink(stats) ==
+  LET B == {i \in DOMAIN stats : stats[i].t = "file" /\ stats[i].hl # <<>>
+                                 /\ ~\E j \in 1..(i - 1) : stats[j].p = stats[i].hl /\ stats[j].t = "file" /\ stats[j].hl = <<>>}
+  IN IF B = {} THEN 0 ELSE CHOOSE i \in B : \A j \in B : i <= j
+MinNZ(a, b) == IF a = 0 THEN b ELSE IF b = 0 THEN a ELSE IF a < b THEN a ELSE b
+HostileClauses(c, begin, e, stats) ==
+  LET firstBad == MinNZ(VSFirstReject(ChangesOf(stats)), FirstBadLink(stats))
+      before == begin.before
+      after == e.after
+      late == {i \in DOMAIN stats : i >= firstBad /\ CleanInside(stats[i].raw)
+                                    /\ ~\E j \in 1..(firstBad - 1) : stats[j].p = stats[i].p}
+  IN Cl(begin.outsideBefore # e.outsideAfter, "C03.outsideTouched")
+     \cup Cl((firstBad # 0 \/ c.rMustFail) /\ c.retR = "ok", "C03.invalidStreamAccepted")
+     \cup Cl(firstBad # 0 /\ \E i \in late :
+                LET p == stats[i].p IN
+                  \/ Has(after, p) # Has(before, p)
+                  \/ (Has(after, p) /\ Has(before, p) /\ (At(after, p).ino # At(before, p).ino \/ At(after, p).c # At(before, p).c)),
+            "C03.offendingEntryApplied")
+
 EndClauses(c, e) ==
   LET evs == CaseEvents(c, l)
       begin == evs[1]
@@ -195,7 +218,7 @@ EndClauses(c, e) ==
              \cup Pfx("C07", Cl(~ReqOK(reqs, view, before, c.differ, merge), "contentRequestSet"))
              \cup Pfx("C05", NotifyClauses(notes, view, before, after, reqs, c.differ, merge))
   IN
-  (IF c.retR = "ok" /\ c.realR /\ vsOK THEN outcome ELSE {})
+  (IF c.retR = "ok" /\ c.realR /\ vsOK /\ LinksOK(stats) /\ ~c.rMustFail THEN outcome ELSE {})
   \cup (IF c.realS THEN Cl(~vsOK, "C11.streamNotValid") \cup Cl(~LinksOK(stats), "C11.hardlinkToUnsentEntry") ELSE {})
   \cup (IF c.realS /\ c.retS = "ok"
         THEN Cl(~(SReqIds(c) \subseteq c.sFinished), "C06.requestNotAnswered")
@@ -209,6 +232,7 @@ EndClauses(c, e) ==
          /\ ~(Len(stats) = Len(begin.src) /\ \A i \in DOMAIN begin.src : stats[i].p = begin.src[i].p /\ stats[i].t = begin.src[i].t),
          "C06.statPerViewEntry")
   \cup (IF c.realS /\ c.realR /\ c.faults = 0 /\ ~bothOK THEN {"C11.faultFreeTransferFailed"} ELSE {})
+  \cup (IF "hostile" \in DOMAIN begin /\ c.realR THEN HostileClauses(c, begin, e, stats) ELSE {})
   \cup Cl(c.retS = "none" \/ c.retR = "none", "C04.callDidNotReturn")
 
 EndDetail(c, e) ==
